@@ -297,29 +297,31 @@ class CaseTimeout(BaseException):
 
 
 class time_limit(object):
-    """with time_limit(seconds): ...  raises CaseTimeout inside the block (worker processes, main thread)."""
+    """with time_limit(seconds): ...  raises CaseTimeout inside the block (worker processes, main thread).
+    The limit is CPU time of this process (ITIMER_PROF), not wall-clock time: a worker that is merely descheduled on
+    an oversubscribed machine must not be mistaken for a non-terminating case."""
 
     def __init__(self, seconds):
         self.seconds = seconds
 
     def _fire(self, signum, frame):
-        raise CaseTimeout("no result after %s s" % self.seconds)
+        raise CaseTimeout("no result after %s s of CPU time" % self.seconds)
 
     def __enter__(self):
         import signal
 
-        self.old_handler = signal.signal(signal.SIGALRM, self._fire)
-        self.old_timer = signal.setitimer(signal.ITIMER_REAL, self.seconds)
-        self.t0 = time.time()
+        self.old_handler = signal.signal(signal.SIGPROF, self._fire)
+        self.old_timer = signal.setitimer(signal.ITIMER_PROF, self.seconds)
+        self.t0 = time.process_time()
         return self
 
     def __exit__(self, *exc):
         import signal
 
-        signal.setitimer(signal.ITIMER_REAL, 0)
-        signal.signal(signal.SIGALRM, self.old_handler)
+        signal.setitimer(signal.ITIMER_PROF, 0)
+        signal.signal(signal.SIGPROF, self.old_handler)
         if self.old_timer and self.old_timer[0] > 0:
-            signal.setitimer(signal.ITIMER_REAL, max(0.01, self.old_timer[0] - (time.time() - self.t0)))
+            signal.setitimer(signal.ITIMER_PROF, max(0.01, self.old_timer[0] - (time.process_time() - self.t0)))
         return False
 
 
